@@ -6,6 +6,7 @@
   through `generated_sigs_ok`.
 -/
 import Props.Tables
+import Proofs.ErrFlow
 import Proofs.FunctionsSafe
 import Proofs.WellTyped
 namespace Jmes.Props
@@ -16,6 +17,15 @@ theorem C10_generated_table_ok : TableOK Generated.table = true := generated_tab
     each wired to its own handler, with the specification's signature. -/
 theorem C10_generated_sigs_ok : SigsOK Generated.functionTable Spec.functionTable = true := generated_sigs_ok
 theorem C10_generated_lex_ok : LexTablesOK Model.lexTables Spec.lexTables = true := generated_lex_ok
+
+/-- The regenerated error-flow facts (tools/errflow, go/ssa): at every call site of the package whose callee
+    returns an error, the error is returned to the caller (as it is, or replaced by another error), except at
+    the sites `Spec.allowed` lists (the sorters' `Less`, `to_number`'s ParseFloat, in-memory buffer writes,
+    MustCompile's panic, the parser's token alternatives). -/
+theorem C10_generated_errflow_ok : Spec.ErrFlowOK GeneratedErrFlow.sites = true := generated_errflow_ok
+
+theorem C10_errors_are_returned_at_every_call_site (s : GeneratedErrFlow.Site) (h : s ∈ GeneratedErrFlow.sites) :
+    s.status = .propagated ∨ s.status = .replaced ∨ Spec.allowed s = true := errflow_site s h
 
 variable {N : Type} [NumOps N]
 
